@@ -480,30 +480,143 @@ def export_call_facts(model, m):
     return calls, joins, completes
 
 
-def check_export(model, rep):
-    if 'export_time_variables' in model.functions:
-        mod, fn = model.functions['export_time_variables']
-        loc = f'{mod}:{fn.lineno}'
-        unit_map = None
-        for n in ast.walk(fn):
-            if isinstance(n, ast.Assign) and isinstance(n.value, ast.Dict) and len(n.value.keys) >= 8:
-                unit_map = n
-        if unit_map is None:
-            rep.cannot('C18.export', 'export_time_variables', 'unit mapping not found', loc)
-        else:
-            bad = []
-            for k, v in zip(unit_map.value.keys, unit_map.value.values):
-                if isinstance(k, ast.Constant) and k.value in UNIT_PARAM:
-                    want = UNIT_PARAM[k.value]
-                    got = v.id if isinstance(v, ast.Name) else (v.value if isinstance(v, ast.Constant) else ast.unparse(v))
-                    if (want is None and got not in ('', None)) or (want is not None and got != want):
-                        bad.append((k.value, got))
-            rep.decide(not bad, 'C18.export', 'export_time_variables:UNIT', f'unit mapping pairs {bad} wrongly', loc=f'{mod}:{unit_map.lineno}')
-            check_export_columns(model, rep, mod, fn, unit_map)
-            src = ast.unparse(fn)
-            rep.decide('index=False' in src, 'C18.export', 'export_time_variables:index', 'the CSV is not written with index=False', loc=loc)
-    else:
+def _strip_validation(stmts):
+    """argument validation (`if <test>: raise ...`, loops of such tests) decides nothing about what a completing call exports"""
+    out = []
+    for s_ in stmts:
+        if isinstance(s_, ast.If) and not s_.orelse and all(isinstance(b, ast.Raise) for b in s_.body):
+            continue
+        if isinstance(s_, ast.For) and all(isinstance(b, ast.If) and not b.orelse and all(isinstance(x, ast.Raise) for x in b.body)
+                                           for b in s_.body):
+            continue
+        out.append(s_)
+    return out
+
+
+def run_export_util(model, var, path):
+    """the export function evaluated for an object that records exactly the variable `var`, asked to write to `path`:
+    -> (sx, columns written into the frame [(label text, value, line)], to_csv calls [(path value, kwargs, line)], completing paths).
+    Helper functions the export function calls are evaluated with it; pandas / os calls are modelled by the hook."""
+    from sa.sx import Dv, Bv, NoneV
+    mod, fn = model.functions['export_time_variables']
+    sx = SX(model)
+    sx.eval_comprehensions = True
+    sx.variable_kinds = VARIABLE_KINDS
+    sxm.POSITIVE_ATOMS.clear()
+    tables, writes = [], []
+
+    def hook(sx_, n, f, recv, args, kwargs, st, frame):
+        name = f.id if isinstance(f, ast.Name) else (f.attr if isinstance(f, ast.Attribute) else None)
+        if name == 'DataFrame':
+            tables.append(n.lineno)
+            return [(st, Ov(f'<table{len(tables)}>', None, False))]
+        if name == 'to_csv' and isinstance(recv, Ov) and recv.path.startswith('<table'):
+            writes.append((args[0] if args else kwargs.get('path_or_buf'), dict(kwargs), n.lineno, recv.path))
+            return [(st, NoneV())]
+        if name == 'exists':
+            return [(st, Bv(True))]
+        if name in ('dirname', 'makedirs', 'abspath'):
+            return [(st, Unk(f'<{name}>'))]
+        return None
+    sx.call_hook = hook
+    env = {'rotating_object': Ov('obj', 'RotatingObject', False), 'time_array': Seq('time_array', ('q', 'Time')), 'file_path': Sv(path)}
+    for a in fn.args.args + fn.args.kwonlyargs:
+        if a.arg.endswith('_unit'):
+            env[a.arg] = Uv(U(sym=a.arg))
+    st = sxm.State(env=env)
+    elem = ('q', VARIABLE_KINDS[var]) if var in VARIABLE_KINDS else 'num'
+    st.heap[('obj', 'time_variables')] = Dv({var: Seq(f"obj.time_variables[{var!r}]", elem)})
+    frame = {'module': mod, 'cls': None, 'fn': fn, 'depth': 0}
+    outs = sx.block(_strip_validation(strip_docstring(fn.body)), [st], frame)
+    done = [o for o in outs if o.kind in ('fall', 'return')]
+    cols = []
+    for o in done:
+        cols.append([(e[2], e[3], e[4], e) for e in o.state.effects if e[0] == 'setitem' and str(e[1]).startswith('<table')])
+    return sx, mod, fn, cols, writes, done, [o for o in outs if o.kind == 'raise']
+
+
+def check_export_util(model, rep):
+    """what the export function writes, decided on its evaluation (through whatever helpers it is split into): for an object
+    recording one variable v the frame gets exactly the time column and v's column, each labelled with and converted to its OWN
+    unit parameter sample by sample; the frame is written once, without the index, to the given path plus at most `.csv`"""
+    if 'export_time_variables' not in model.functions:
         rep.cannot('C18.export', 'export_time_variables', 'function not found')
+        return
+    mod, fn = model.functions['export_time_variables']
+    loc = f'{mod}:{fn.lineno}'
+    unit_ok, time_done = True, False
+    for var, param in UNIT_PARAM.items():
+        cons = f'export_time_variables:column[{var}]'
+        try:
+            sx, _, _, cols, writes, done, raises = run_export_util(model, var, '<dir>/out')
+        except CannotDecide as e:
+            rep.cannot('C18.export', cons, str(e), loc)
+            unit_ok = False
+            continue
+        rep.inspect(len(done))
+        if not done:
+            rep.violation('C18.export', cons, f'no completing path of the export for an object recording {var!r} '
+                          f'({[o.value for o in raises][:2]})', loc)
+            unit_ok = False
+            continue
+        ok, why, line = True, '', fn.lineno
+        tok, twhy = True, ''
+        for pc in cols:
+            tl = repr('time (<time_unit>)')
+            tcols = [c for c in pc if c[0] == tl or str(c[0]).startswith("'time")]
+            vcols = [c for c in pc if c not in tcols]
+            if len(tcols) != 1:
+                tok, twhy = False, f'{len(tcols)} time columns are written'
+            else:
+                tok, twhy = _column_ok(sx, tcols[0][3], 'time (<time_unit>)', 'time_array', 'Time', 'time_unit')
+            if len(vcols) != 1:
+                ok, why = False, f'{len(vcols)} columns written for this variable'
+                break
+            e = vcols[0][3]
+            line = e[4]
+            if param is None:
+                ok = e[2] == repr(var) and sx.show(e[3]).endswith(f'time_variables[{var!r}]')
+                why = '' if ok else f'the unit-less variable is exported as column {e[2]} = `{sx.show(e[3])[:60]}`'
+            else:
+                ok, why = _column_ok(sx, e, f'{var} (<{param}>)', f'time_variables[{var!r}]', VARIABLE_KINDS[var], param)
+            if not ok:
+                break
+        rep.decide(ok, 'C18.export', cons, why, loc=f'{mod}:{line}', detail=f'{len(done)} path(s)')
+        unit_ok = unit_ok and ok
+        if not time_done:
+            time_done = True
+            rep.decide(tok, 'C18.export', 'export_time_variables:time', twhy, loc=loc)
+            iok = len(writes) == len(done) and all(isinstance(w[1].get('index'), sxm.Bv) and w[1]['index'].b is False for w in writes)
+            rep.decide(iok, 'C18.export', 'export_time_variables:index',
+                       'the CSV is not written exactly once per call with index=False' if not iok else '', loc=f'{mod}:{writes[0][2] if writes else fn.lineno}')
+    rep.decide(unit_ok, 'C18.export', 'export_time_variables:UNIT', 'a variable is not paired with its own unit parameter (see the column instances)', loc=loc)
+    # the file: given path, plus `.csv` unless it already ends with it - for a name with dots too
+    fok, fwhy, fline = True, '', fn.lineno
+    for given, want in (('<dir>/gear 1.1', '<dir>/gear 1.1.csv'), ('<dir>/gear 1.1.csv', '<dir>/gear 1.1.csv'), ('<dir>/plain', '<dir>/plain.csv')):
+        try:
+            sx, _, _, cols, writes, done, raises = run_export_util(model, 'torque', given)
+        except CannotDecide as e:
+            fok, fwhy = None, str(e)
+            break
+        if len(writes) != 1:
+            fok, fwhy = False, f'{len(writes)} to_csv calls for one export (exactly one specified)'
+            break
+        pv = writes[0][0]
+        fline = writes[0][2]
+        if not (isinstance(pv, Sv) and pv.s == want):
+            got = pv.s if isinstance(pv, Sv) else sx.show(pv)[:60]
+            fok, fwhy = False, (f'asked to write {given!r} the function writes `{got}`, specified {want!r} (the given path, `.csv` appended unless present): '
+                                f'two element names can then share a file and one history is lost')
+            break
+    if fok is None:
+        rep.cannot('C18.export', 'export_time_variables:file', fwhy, loc)
+    else:
+        rep.decide(fok, 'C18.export', 'export_time_variables:file', fwhy, loc=f'{mod}:{fline}',
+                   detail='the file written is the given path, with `.csv` appended unless present')
+
+
+def check_export(model, rep):
+    check_export_util(model, rep)
     # Powertrain.export_time_variables forwards the element, the recorded axis, the units and a path made of the element's name:
     # decided on the arguments that reach the export function when the method is evaluated for a one-element powertrain
     # (through helper methods, locals, **dicts - whatever the method is written with)
@@ -613,5 +726,4 @@ def check(model, rep):
                 'parameter to the same-named keyword. Numeric interpolation is not decided.')
     check_snapshot(model, rep)
     check_export(model, rep)
-    check_export_files(model, rep)
     rep.assume('every recorded list has one sample per instant (C17)')
